@@ -7,6 +7,14 @@ VERIF = os.path.dirname(os.path.dirname(os.path.abspath(__file__)))
 TECH = "machine-checked proof in Rocq/Coq 8.16 (theorems over a model regenerated from the source and tied to it by a differential correspondence check)"
 
 CLAIMED = {
+    "C01": ("HEADLINE theorem gen_refines_reference: for every list of pieces (unbounded), every variant, all 32 option "
+            "settings, every generator configuration and every selection function meeting std's select_nth_unstable contract, "
+            "finalize(update*(new)) equals the ~120-line declarative reference Spec.spec_tlsh on the concatenated bytes -- same "
+            "hash or same specific rejection, including > MAX and > 2^32 bytes (u32 counters mod 2^32, saturation written "
+            "explicitly).  Tables, salts, triplets and constants are re-read from /repo on every run and proved equal to the "
+            "reference's golden copies; the reference is validated by known answers of the official implementation evaluated in Coq.",
+            "select_nth_unstable by contract; binary32 by stdlib SpecFloat; saturating f32->u32 cast shared by spec and model; "
+            "hand model tied by GEN-HASH (+ direct comparison with the extracted reference), INJECT, BMAP suites"),
     "C03": ("Theorems for every input, every split into update calls and every history over update / finalize / processed_len / "
             "clone / drop / swap: on every state meeting the representation invariant (which new() establishes and update "
             "preserves) update never panics and equals the byte-wise fold, so update(update(s,a),b) = update(s,a++b), any "
